@@ -71,35 +71,55 @@ DisjointLit(es) == (\A i \in 1..Len(es) : LitKeyOf(es[i]).ok)
                    /\ \A i, j \in 1..Len(es) : i # j => LitKeyOf(es[i]).v # LitKeyOf(es[j]).v
 IsPermOf(es, fs) == Len(es) = Len(fs) /\ \E f \in [1..Len(es) -> 1..Len(es)] :
                        (\A i, j \in 1..Len(es) : i # j => f[i] # f[j]) /\ \A i \in 1..Len(es) : fs[i] = es[f[i]]
-RECURSIVE MPermT(_,_), MPerm1(_,_), MPermG(_,_,_), MPermE(_,_), MPermSeq(_,_,_), MPermEs(_,_,_)
-MPermSeq(xs, ys, i) == i > Len(xs) \/ (MPerm1(xs[i], ys[i]) /\ MPermSeq(xs, ys, i+1))
-MPermT(a, b) == Len(a.alts) = Len(b.alts) /\ MPermSeq(a.alts, b.alts, 1)
-MPerm1(a, b) ==
+\* literal keys a member can claim, as a sequence [ok, ks]: a keyed entry, or - through inline groups and (generic or plain) group
+\* rule names - the keys of every entry of the group it denotes.  Generic parameters never occur in key position in the fragment.
+RECURSIVE KeysE(_,_,_), KeysEs(_,_,_,_), KeysAlts(_,_,_,_)
+KeysE(R, e, fuel) ==
+  IF e.k = "ent" THEN (IF LitKeyOf(e).ok THEN [ok |-> TRUE, ks |-> <<LitKeyOf(e).v>>] ELSE [ok |-> FALSE, ks |-> <<>>])
+  ELSE IF fuel = 0 THEN [ok |-> FALSE, ks |-> <<>>]
+  ELSE IF e.k = "sub" THEN KeysAlts(R, e.g.galts, 1, fuel - 1)
+  ELSE IF e.k = "name" /\ IsGroupRule(R, e.n) THEN KeysAlts(R, RuleGroup(R, e.n).galts, 1, fuel - 1)
+  ELSE [ok |-> FALSE, ks |-> <<>>]
+KeysEs(R, es, i, fuel) ==
+  IF i > Len(es) THEN [ok |-> TRUE, ks |-> <<>>]
+  ELSE LET x == KeysE(R, es[i], fuel)  y == KeysEs(R, es, i + 1, fuel) IN [ok |-> x.ok /\ y.ok, ks |-> x.ks \o y.ks]
+KeysAlts(R, gs, j, fuel) ==
+  IF j > Len(gs) THEN [ok |-> TRUE, ks |-> <<>>]
+  ELSE LET x == KeysEs(R, gs[j], 1, fuel)  y == KeysAlts(R, gs, j + 1, fuel) IN [ok |-> x.ok /\ y.ok, ks |-> x.ks \o y.ks]
+\* members with pairwise disjoint literal key sets (at least one member is a group; all-keyed groups are DisjointLit)
+DisjointKeySets(R, es) ==
+  (\A i \in 1..Len(es) : KeysE(R, es[i], 3).ok /\ KeysE(R, es[i], 3).ks # <<>>)
+  /\ \A i, j \in 1..Len(es) : i # j =>
+        LET a == KeysE(R, es[i], 3).ks  b == KeysE(R, es[j], 3).ks IN \A x \in 1..Len(a), y \in 1..Len(b) : ~VEq(a[x], b[y])
+RECURSIVE MPermT(_,_,_), MPerm1(_,_,_), MPermG(_,_,_,_), MPermE(_,_,_), MPermSeq(_,_,_,_), MPermEs(_,_,_,_)
+MPermSeq(R, xs, ys, i) == i > Len(xs) \/ (MPerm1(R, xs[i], ys[i]) /\ MPermSeq(R, xs, ys, i+1))
+MPermT(R, a, b) == Len(a.alts) = Len(b.alts) /\ MPermSeq(R, a.alts, b.alts, 1)
+MPerm1(R, a, b) ==
   a.k = b.k /\
-  CASE a.k = "paren" -> MPermT(a.t, b.t)
-    [] a.k = "map" -> MPermG(a.g, b.g, TRUE)
-    [] a.k = "arr" -> MPermG(a.g, b.g, FALSE)
-    [] a.k = "tag" -> a.tagk = b.tagk /\ MPermT(a.t, b.t)
+  CASE a.k = "paren" -> MPermT(R, a.t, b.t)
+    [] a.k = "map" -> MPermG(R, a.g, b.g, TRUE)
+    [] a.k = "arr" -> MPermG(R, a.g, b.g, FALSE)
+    [] a.k = "tag" -> a.tagk = b.tagk /\ MPermT(R, a.t, b.t)
     [] OTHER -> a = b
-MPermEs(es, fs, i) == i > Len(es) \/ (MPermE(es[i], fs[i]) /\ MPermEs(es, fs, i+1))
-MPermE(e, f) ==
+MPermEs(R, es, fs, i) == i > Len(es) \/ (MPermE(R, es[i], fs[i]) /\ MPermEs(R, es, fs, i+1))
+MPermE(R, e, f) ==
   e.k = f.k /\
-  CASE e.k = "ent" -> e.lo = f.lo /\ e.hi = f.hi /\ e.key = f.key /\ MPermT(e.t, f.t)
-    [] e.k = "sub" -> e.lo = f.lo /\ e.hi = f.hi /\ MPermG(e.g, f.g, FALSE)
+  CASE e.k = "ent" -> e.lo = f.lo /\ e.hi = f.hi /\ e.key = f.key /\ MPermT(R, e.t, f.t)
+    [] e.k = "sub" -> e.lo = f.lo /\ e.hi = f.hi /\ MPermG(R, e.g, f.g, FALSE)
     [] OTHER -> e = f
-\* alternatives position by position; inside a map group with pairwise distinct literal keys members may be permuted
-MPermG(g, h, ismap) ==
+\* alternatives position by position; inside a map group whose members have pairwise disjoint literal key sets members may be permuted
+MPermG(R, g, h, ismap) ==
   Len(g.galts) = Len(h.galts) /\
   \A j \in 1..Len(g.galts) :
      LET es == g.galts[j]  fs == h.galts[j] IN
      Len(es) = Len(fs) /\
-     IF ismap /\ DisjointLit(es)
+     IF ismap /\ (DisjointLit(es) \/ DisjointKeySets(R, es))
      THEN \E p \in [1..Len(es) -> 1..Len(es)] :
-             (\A i, k \in 1..Len(es) : i # k => p[i] # p[k]) /\ \A i \in 1..Len(es) : MPermE(es[p[i]], fs[i])
-     ELSE MPermEs(es, fs, 1)
+             (\A i, k \in 1..Len(es) : i # k => p[i] # p[k]) /\ \A i \in 1..Len(es) : MPermE(R, es[p[i]], fs[i])
+     ELSE MPermEs(R, es, fs, 1)
 MPermSchema(R, S) == Len(R) = Len(S) /\ \A i \in 1..Len(R) :
    R[i].name = S[i].name /\ R[i].kind = S[i].kind /\ R[i].op = S[i].op /\ R[i].params = S[i].params /\
-   IF R[i].kind = "type" THEN MPermT(R[i].t, S[i].t) ELSE MPermE(R[i].e, S[i].e)
+   IF R[i].kind = "type" THEN MPermT(R, R[i].t, S[i].t) ELSE MPermE(R, R[i].e, S[i].e)
 
 \* ------------------------------------------------------------------ operator / occurrence / prelude identities (C09)
 \* contexts in which an operand type can appear; WrapV wraps the document accordingly
